@@ -16,33 +16,9 @@ verus! {
 //@ fragment spec_inout.rs
 //@ fragment assumed_checker_leafs.rs
 
-use crate::nitrogql_ast::operation::FragmentDefinition;
-use crate::nitrogql_checker::operation_checker::context::OperationCheckContext;
-
-pub open spec fn var_names(v: Seq<VariableDefinition>) -> Seq<Seq<char>> { Seq::new(v.len(), |k: int| v[k].name.name@) }
-/// 5.8.2: the (unwrapped) type of a variable is a defined input type
-pub open spec fn var_type_ok<S>(sch: &Schema<S, Pos>, v: VariableDefinition) -> bool {
-    schema_types(sch).contains_key(unwrapped_name(v.r#type)) && is_input_def(schema_types(sch)[unwrapped_name(v.r#type)].inner)
-}
-pub open spec fn vardefs_ok_upto<S>(sch: &Schema<S, Pos>, vs: Seq<VariableDefinition>, n: int) -> bool {
-    &&& nodup(var_names(vs).take(n))                                       // 5.8.1 Variable Uniqueness
-    &&& forall|i: int| 0 <= i < n ==> var_type_ok(sch, #[trigger] vs[i])   // 5.8.2 Variables Are Input Types
-}
-pub open spec fn valid_vardefs<S>(sch: &Schema<S, Pos>, vs: &VariablesDefinition) -> bool { vardefs_ok_upto(sch, vs.definitions@, vs.definitions@.len() as int) }
-
-/// 5.5.1.2 the type condition names a defined type; 5.5.1.3 which is an Object, Interface or Union
-pub open spec fn valid_fragment_target<S>(sch: &Schema<S, Pos>, f: &FragmentDefinition) -> bool {
-    schema_types(sch).contains_key(f.type_condition.name@) && {
-        let d = schema_types(sch)[f.type_condition.name@].inner;
-        d is Object || d is Interface || d is Union
-    }
-}
-
-//@ contract nitrogql_checker::operation_checker ::fn check_variables_definition
+//@ fragment spec_vardefs.rs
+//@ fragment contract_check_vardefs.rs
 //@   unexternal
-//@   ensures [C03+C04.vardefs.frame] crate::extends_errs(old(result)@, final(result)@)
-//@   ensures [C03.vardefs.sound] final(result)@.len() == old(result)@.len() ==> crate::valid_vardefs(context.definitions, variables)
-//@   ensures [C04.vardefs.complete] crate::valid_vardefs(context.definitions, variables) ==> final(result)@.len() == old(result)@.len()
 //@   loops 1
 //@   loop 0 iter_name it
 //@   loop 0 invariant [C03+C04.vardefs.loop.iter] it.seq().len() == variables.definitions@.len() && 0 <= it.index@ <= it.seq().len() && (forall|i: int| 0 <= i < it.seq().len() ==> *it.seq()[i] == variables.definitions@[i])
